@@ -609,6 +609,21 @@ FUNCS = [
 ]
 
 
+# further function tables live in tools/trspecs/<Area>.py (each defines FUNCS and optionally IMPORTS = [lean modules];
+# U64 and LOG2 are provided). Each area is emitted to its own file lean/Momo/Translated/<Area>.lean, so that a function of
+# one area that can no longer be translated (or whose translation no longer type-checks) only breaks the properties whose
+# theorems are about that area.
+def load_area_specs():
+    import glob
+    d = os.path.join(os.path.dirname(os.path.abspath(__file__)), "trspecs")
+    areas = {}
+    for f in sorted(glob.glob(os.path.join(d, "*.py"))):
+        g = {"U64": U64, "LOG2": LOG2, "__file__": f}
+        exec(compile(open(f).read(), f, "exec"), g)
+        areas[os.path.basename(f)[:-3]] = (g.get("FUNCS", []), g.get("IMPORTS", []))
+    return areas
+
+
 def translate_one(spec, text):
     body = find_body(text, spec["anchor"], spec.get("occurrence", 0))
     if body is None:
@@ -622,29 +637,49 @@ def translate_one(spec, text):
     return Tr(spec, None).lean_def(stmts)
 
 
-def generate(repo):
-    """returns (lean text, missing list)"""
+def _emit(repo, funcs, header, cache):
     inc = os.path.join(repo, "include", "momo")
-    cache, out, missing = {}, [], []
-    out.append("import Momo.Model.Seg\nimport Momo.Model.TrBase\n/-!\n  GENERATED by tools/translate.py from the function bodies in /repo/include/momo — do not edit.\n"
-               "  Each `def` performs the operations of the named C++ function in the same order with the C++ integer\n"
-               "  semantics explicit (see tools/translate.py). Equalities with the hand-written models: Proof/TranslatedEq.lean.\n-/\n"
-               "namespace Momo.Tr\nopen Momo\n")
-    for spec in FUNCS:
+    out, missing = [header], []
+    for spec in funcs:
         path = os.path.join(inc, spec["header"])
         try:
             if path not in cache:
                 cache[path] = strip_comments(open(path, encoding="utf-8", errors="replace").read())
             out.append(translate_one(spec, cache[path]))
-        except (Unsupported, SyntaxError, KeyError, OSError) as e:
+        except (Unsupported, SyntaxError, KeyError, OSError, ValueError) as e:
             missing.append((spec.get("prop", ""), "%s: %s" % (spec["cxx"], e)))
             out.append("-- NOT TRANSLATED: %s (%s)\n" % (spec["cxx"], str(e).replace("\n", " ")))
     out.append("end Momo.Tr\n")
     return "\n".join(out), missing
 
 
+_HEAD = ("%s/-!\n  GENERATED by tools/translate.py from the function bodies in /repo/include/momo — do not edit.\n"
+         "  Each `def` performs the operations of the named C++ function in the same order with the C++ integer\n"
+         "  semantics explicit (see tools/translate.py). Equalities with the hand-written models: Proof/TrEq*.lean.\n-/\n"
+         "namespace Momo.Tr\nopen Momo\n")
+
+
+def generate(repo):
+    """returns (lean text of Momo/Translated.lean, missing list)"""
+    return _emit(repo, FUNCS, _HEAD % "import Momo.Model.Seg\nimport Momo.Model.TrBase\n", {})
+
+
+def generate_all(repo):
+    """returns ({path relative to lean/Momo: text}, missing list) for Translated.lean and every Translated/<Area>.lean"""
+    cache, files = {}, {}
+    text, missing = _emit(repo, FUNCS, _HEAD % "import Momo.Model.Seg\nimport Momo.Model.TrBase\n", cache)
+    files["Translated.lean"] = text
+    for area, (funcs, imports) in sorted(load_area_specs().items()):
+        imps = "".join("import %s\n" % m for m in ["Momo.Model.Seg", "Momo.Model.TrBase"] + [m for m in imports if m not in ("Momo.Model.Seg", "Momo.Model.TrBase")])
+        t, m = _emit(repo, funcs, _HEAD % imps, cache)
+        files["Translated/%s.lean" % area] = t
+        missing += m
+    return files, missing
+
+
 if __name__ == "__main__":
-    text, missing = generate(sys.argv[1] if len(sys.argv) > 1 else "/repo")
-    sys.stdout.write(text)
+    files, missing = generate_all(sys.argv[1] if len(sys.argv) > 1 else "/repo")
+    want = sys.argv[2] if len(sys.argv) > 2 else "Translated.lean"
+    sys.stdout.write(files[want])
     if missing:
         sys.stderr.write("MISSING: " + "; ".join(m for _, m in missing) + "\n")
